@@ -2448,7 +2448,12 @@ int string_case_compare (parse_node_t ** c1, parse_node_t ** c2) {
   p1 = (i1 ? PROG_STRING (i1) : 0);
   p2 = (i2 ? PROG_STRING (i2) : 0);
 
-  return (int)(p1 - p2);
+  /* same order as the search in f_switch(); a difference truncated to int is not an order */
+  if ((intptr_t) p1 < (intptr_t) p2)
+    return -1;
+  if ((intptr_t) p1 > (intptr_t) p2)
+    return 1;
+  return 0;
 }
 
 void prepare_cases (parse_node_t * pn, size_t start) {
